@@ -46,7 +46,7 @@ Proof.
   destruct (_ || _); [apply lx_refl|]. destruct (_ =? CharacterReferenceKind); [apply lx_refl|].
   destruct (_ =? RawHTMLKind).
   { destruct (ignoreRaw c); [constructor|]. destruct (filterOn c); [apply lx_filterRaw|apply lx_refl]. }
-  destruct (_ =? SoftLineBreakKind); [apply lx_refl|]. destruct (_ =? HardLineBreakKind); [apply lx_refl|].
+  destruct (_ =? SoftLineBreakKind); [destruct (softBreak c =? 2); [lxs|apply lx_refl]|]. destruct (_ =? HardLineBreakKind); [lxs|].
   destruct (_ =? EmphasisKind); [lxs|]. destruct (_ =? StrongKind); [lxs|]. destruct (_ =? CodeSpanKind); [lxs|].
   destruct (_ =? LinkKind); [lxs|]. destruct (_ =? ImageKind); [lxs|]. destruct (_ =? AutolinkKind); [lxs|].
   destruct (_ =? IndentKind); [apply lx_refl|]. destruct (_ =? HTMLTagKind); [exact Hk|constructor].
